@@ -19,6 +19,7 @@ mod node_gen;
 mod node_models;
 mod node_oracles;
 mod node_rig;
+mod node_twins;
 mod plan;
 mod refs;
 mod rng;
